@@ -45,9 +45,8 @@ ASSUMPTIONS = [
 TRUSTED = []
 ORACLE_LIMIT = {"quick": 100000, "thorough": 1000000}
 EXPLORED_ONLY = [
-    "ms_of_today(float): modelled on the integer binary64 arithmetic and compared bit for bit (stream ms_of_today), "
-    "no theorem; the oracle only asks |result - exact milliseconds of the day| <= 1 (the code adds the fractional "
-    "second, in seconds, to a millisecond count, so e.g. ms_of_today(100.9995) = 101000, not 100999)",
+    "ms_of_today(float): range 0..86399999 is a theorem for every double; that it is the millisecond of the "
+    "argument (up to the rounding of s * 1000 next to a millisecond boundary) is checked by the oracle only",
     "CPython's datetime.fromtimestamp / timedelta(seconds=float) / float division themselves: transcribed into "
     "Model/CdsFloat.v and Model/CdsSoftFloat.v and validated by bit-exact correspondence on every run; the theorems "
     "C14_unix_seconds_close / C14_datetime_exact are about that transcription",
